@@ -31,6 +31,7 @@ type file struct {
 	*fileData
 	offset int64
 	flag   int
+	closed bool
 }
 
 type fileData struct {
@@ -194,11 +195,16 @@ func (f *fileData) info() hackpadfs.FileInfo {
 }
 
 func (f *file) Close() error {
-	if f.fileData == nil {
-		return hackpadfs.ErrClosed
+	if f.closed {
+		return f.closedErr("close")
 	}
-	f.fileData = nil
+	f.closed = true
 	return nil
+}
+
+// closedErr returns the error for running 'op' on this file after it was closed
+func (f *file) closedErr(op string) error {
+	return &hackpadfs.PathError{Op: op, Path: f.path, Err: hackpadfs.ErrClosed}
 }
 
 func (f *file) updateModTime() {
@@ -206,18 +212,27 @@ func (f *file) updateModTime() {
 }
 
 func (f *file) Read(p []byte) (n int, err error) {
+	if f.closed {
+		return 0, f.closedErr("read")
+	}
 	n, err = f.ReadAt(p, f.offset)
 	f.offset += int64(n)
 	return
 }
 
 func (f *file) ReadBlob(length int) (blob blob.Blob, n int, err error) {
+	if f.closed {
+		return nil, 0, f.closedErr("read")
+	}
 	blob, n, err = f.ReadBlobAt(length, f.offset)
 	f.offset += int64(n)
 	return
 }
 
 func (f *file) ReadAt(p []byte, off int64) (n int, err error) {
+	if f.closed {
+		return 0, f.closedErr("readat")
+	}
 	blob, n, err := f.ReadBlobAt(len(p), off)
 	if blob != nil {
 		copy(p, blob.Bytes())
@@ -226,6 +241,9 @@ func (f *file) ReadAt(p []byte, off int64) (n int, err error) {
 }
 
 func (f *file) ReadBlobAt(length int, off int64) (b blob.Blob, n int, err error) {
+	if f.closed {
+		return nil, 0, f.closedErr("readat")
+	}
 	if off >= int64(f.Size()) {
 		return nil, 0, io.EOF
 	}
@@ -250,6 +268,9 @@ func (f *file) ReadBlobAt(length int, off int64) (b blob.Blob, n int, err error)
 }
 
 func (f *file) Seek(offset int64, whence int) (int64, error) {
+	if f.closed {
+		return 0, f.closedErr("seek")
+	}
 	newOffset := f.offset
 	switch whence {
 	case io.SeekStart:
@@ -274,6 +295,9 @@ func (f *file) Write(p []byte) (n int, err error) {
 }
 
 func (f *file) WriteBlob(p blob.Blob) (n int, err error) {
+	if f.closed {
+		return 0, f.closedErr("write")
+	}
 	if f.flag&hackpadfs.FlagAppend != 0 && p.Len() > 0 {
 		// append mode always writes at the end and leaves the offset after the written bytes
 		f.offset = int64(f.Size())
@@ -288,6 +312,9 @@ func (f *file) WriteAt(p []byte, off int64) (n int, err error) {
 }
 
 func (f *file) WriteBlobAt(p blob.Blob, off int64) (n int, err error) {
+	if f.closed {
+		return 0, f.closedErr("writeat")
+	}
 	if f.flag&hackpadfs.FlagAppend != 0 {
 		// like os.File, a file opened with O_APPEND does not support WriteAt
 		return 0, &hackpadfs.PathError{Op: "writeat", Path: f.path, Err: hackpadfs.ErrInvalid}
@@ -335,10 +362,16 @@ func (f *file) writeBlobAt(op string, p blob.Blob, off int64) (n int, err error)
 }
 
 func (f *file) Stat() (hackpadfs.FileInfo, error) {
+	if f.closed {
+		return nil, f.closedErr("stat")
+	}
 	return fileInfo{Record: &f.runOnceFileRecord, Path: f.path}, nil
 }
 
 func (f *file) Truncate(size int64) error {
+	if f.closed {
+		return f.closedErr("truncate")
+	}
 	if f.Mode().IsDir() {
 		return &hackpadfs.PathError{Op: "truncate", Path: f.path, Err: hackpadfs.ErrIsDir}
 	}
@@ -372,6 +405,9 @@ func (f *file) Truncate(size int64) error {
 }
 
 func (f *file) ReadDir(n int) ([]hackpadfs.DirEntry, error) {
+	if f.closed {
+		return nil, f.closedErr("readdir")
+	}
 	dirNames, err := f.ReadDirNames()
 	if err != nil {
 		return nil, &hackpadfs.PathError{Op: "readdir", Path: f.path, Err: err}
@@ -426,6 +462,9 @@ func (d *dirEntry) Info() (hackpadfs.FileInfo, error) {
 }
 
 func (f *file) Chmod(mode hackpadfs.FileMode) error {
+	if f.closed {
+		return f.closedErr("chmod")
+	}
 	newMode := (f.Mode() & ^chmodBits) | (mode & chmodBits)
 	f.modeOverride = &newMode
 	return f.save()
